@@ -4,7 +4,7 @@
    the deterministic simulated MPI with deadlock / spin detection on every run. *)
 From Coq Require Import ZArith List Bool Lia.
 Import ListNotations.
-From Ygm Require Import RankMachine RankInv.
+From Ygm Require Import RankMachine RankInv RankNoErr.
 
 Theorem C03_send_wait_polls : forall c fuel s,
   (1 <= fuel)%nat -> sendq s <> [] -> inprq s = false -> intr s = true -> oracle s = [] ->
@@ -29,3 +29,41 @@ Theorem C03_barrier_exit_condition : forall c fuel s s',
   fst (cur s') = snd (cur s') /\ prev s' = cur s' /\ cbs s' = [] /\ dq s' = [].
 Proof. exact barrier_exit_condition. Qed.
 Print Assumptions C03_barrier_exit_condition.
+
+
+(* THE MAIN THEOREM (safety half of C03).  On every block layout, for every non-negative capacity, every routing
+   scheme, every program whose destinations are ranks of the communicator (handlers and callbacks restricted to what
+   a handler may do), every sequence of MPI responses whose received messages are addressed to ranks of the
+   communicator, and every execution length: none of the ASSERT_RELEASEs of comm.ipp that the machine models can fail
+   (Err 1: front() of an empty destination queue in flush_to_capacity; Err 2: re-entering process_receive_queue;
+   Err 3: barrier leaving with callbacks or buffers queued; Err 4: counts contributed with bytes buffered or
+   pending - the assertion the pinned tree's defect D1 made fail).  The only stop left, Err 9, is "MPI answered a
+   call with the response of a different call", which the lock-step replay never feeds. *)
+Theorem C03_no_assertion_fails : forall c fuel main orc,
+  let nr := Z.to_nat (c_n c * c_p c) in
+  (0 < c_n c)%Z -> (0 < c_p c)%Z -> (0 <= c_me c < c_n c * c_p c)%Z -> (0 <= c_cap c)%Z ->
+  (forall u, forallb (hact_ok nr) (c_hprog c u) = true) ->
+  (forall i, forallb (dests_ok nr) (c_cbprog c i) = true) ->
+  forallb (dests_ok nr) main = true ->
+  Forall (resp_ok nr) orc ->
+  match run_rank fuel c nr main orc with Err a _ => a = 9%nat | _ => True end.
+Proof. exact no_assertion_fails_on_every_layout. Qed.
+Print Assumptions C03_no_assertion_fails.
+
+(* non-vacuity: a two-rank run with a capacity-exceeding async, a received message whose handler replies, and the
+   destructor's barrier completing (status Ok) *)
+Local Open Scope Z_scope.
+Definition c3 : cfg := {| c_n := 2; c_p := 1; c_me := 0; c_routing := 0; c_cap := 16; c_nisw := 4; c_freq := 0;
+  c_hprog := fun u => if u =? 5 then [AAsync 1 6 4] else []; c_cbprog := fun _ => [] |}.
+Definition m5 := {| uid := 5; mdest := 0; stage := 0; hk := 0; len := 3; extra := 0 |}.
+Definition orc3 := [RTestSend true; RTestRecv (Some [m5]); RTestRecv None;       (* async 7: flush, poll, handler 5 replies *)
+                    RTestSend true; RTestRecv None;                                (* flush_all: the reply's send completes *)
+                    RWaitIR (Some (3, 3)) None; RWaitIR (Some (3, 3)) None].       (* two equal count rounds *)
+Example C03_main_theorem_not_vacuous :
+  (forall u, forallb (hact_ok 2) (c_hprog c3 u) = true) /\ Forall (resp_ok 2) orc3 /\
+  exists s, run_rank 1000 c3 2 [AAsync 1 7 40] orc3 = Ok s /\ In (NX 5 0 0) (log s) /\ sendq s = [] /\ sbb s = 0.
+Proof.
+  split; [intros u; cbn; destruct (u =? 5); reflexivity|].
+  split; [apply resp_okb_ok; reflexivity|].
+  eexists. split; [vm_compute; reflexivity|]. cbn. tauto.
+Qed.
